@@ -29,6 +29,7 @@ type LoopSpec struct {
 	Steps      []*Clause
 	Decreases  []*Clause
 	Assumes    []*Clause
+	Hints      []*Clause // lemmas proved on each back edge before the invariants (old() = state at the header)
 }
 
 type Contract struct {
@@ -58,6 +59,8 @@ type Contract struct {
 	RecFuns  []*Pred
 	Pkg      string // package of the file the contract was written in ("" for /verif/libcontracts)
 	GuardTriggers bool // quantified clauses of the form imp(guard, body) use the guard as E-matching trigger
+	Uses     map[string][]string // clause label -> the only requires/invariant labels its proof obligations may use
+	RetHints []*Clause // lemmas proved at every return before the postconditions
 }
 
 // ImmutableDecl: fields of a struct type that are written only by the listed
@@ -67,6 +70,16 @@ type ImmutableDecl struct {
 	Type   string
 	Fields []string
 	Init   []string
+	File   string
+	Line   int
+}
+
+// UFDecl: an uninterpreted specification function, `uf name(T1, T2) R`.
+type UFDecl struct {
+	Name   string
+	Pkg    string
+	Args   []ast.Expr
+	Result ast.Expr
 	File   string
 	Line   int
 }
@@ -85,6 +98,7 @@ type SpecSet struct {
 	Globals   []*Clause // global facts (assumed at function entry, checked nowhere: trusted)
 	Preds     map[string]*Pred
 	Immutable []*ImmutableDecl
+	UFs       []*UFDecl
 	Errors    []string
 }
 
@@ -94,7 +108,7 @@ type GhostDecl struct {
 	Args int
 }
 
-var clauseHead = regexp.MustCompile(`^(requires|ensures|assume|invariant|step|decreases)\s*(\[[^\]]*\])?\s*([A-Za-z_][A-Za-z0-9_\-]*)\s*:\s*(.*)$`)
+var clauseHead = regexp.MustCompile(`^(requires|ensures|assume|invariant|step|decreases|hint|rethint)\s*(\[[^\]]*\])?\s*([A-Za-z_][A-Za-z0-9_\-]*)\s*:\s*(.*)$`)
 
 func newSpecSet() *SpecSet {
 	return &SpecSet{Contracts: map[string]*Contract{}, Ghosts: map[string]*GhostDecl{}, Preds: map[string]*Pred{}}
@@ -232,6 +246,32 @@ func (ss *SpecSet) parseFile(path string, trusted bool, pkgName string) {
 			pending = &strings.Builder{}
 			pending.WriteString(m[3])
 			continue
+		case "uf":
+			finish()
+			m := regexp.MustCompile(`^uf\s+([A-Za-z_][A-Za-z0-9_]*)\s*\(([^)]*)\)\s*(.+)$`).FindStringSubmatch(line)
+			if m == nil {
+				ss.Errors = append(ss.Errors, fmt.Sprintf("%s:%d: bad uf declaration", path, lineNo))
+				continue
+			}
+			d := &UFDecl{Name: m[1], Pkg: pkgName, File: path, Line: lineNo}
+			for _, a := range splitTop(m[2]) {
+				if a = strings.TrimSpace(a); a != "" {
+					e, err := parser.ParseExpr(a)
+					if err != nil {
+						ss.Errors = append(ss.Errors, fmt.Sprintf("%s:%d: uf argument type: %v", path, lineNo, err))
+						continue
+					}
+					d.Args = append(d.Args, e)
+				}
+			}
+			re, err := parser.ParseExpr(strings.TrimSpace(m[3]))
+			if err != nil {
+				ss.Errors = append(ss.Errors, fmt.Sprintf("%s:%d: uf result type: %v", path, lineNo, err))
+				continue
+			}
+			d.Result = re
+			ss.UFs = append(ss.UFs, d)
+			continue
 		case "immutable":
 			finish()
 			// immutable Type f1 f2 ... init Func1 Func2 ...
@@ -294,6 +334,20 @@ func (ss *SpecSet) parseFile(path string, trusted bool, pkgName string) {
 			curPred = pr
 			pending = &strings.Builder{}
 			pending.WriteString(m[3])
+			continue
+		case "uses":
+			finish()
+			// uses <label>: l1 l2 ...   (requires are named req.<label>, loop invariants inv.<label>)
+			rest := strings.TrimSpace(line[len("uses"):])
+			i := strings.Index(rest, ":")
+			if i < 0 {
+				ss.Errors = append(ss.Errors, fmt.Sprintf("%s:%d: bad uses directive", path, lineNo))
+				continue
+			}
+			if cur.Uses == nil {
+				cur.Uses = map[string][]string{}
+			}
+			cur.Uses[strings.TrimSpace(rest[:i])] = strings.Fields(rest[i+1:])
 			continue
 		case "let":
 			finish()
@@ -389,6 +443,8 @@ func (ss *SpecSet) parseFile(path string, trusted bool, pkgName string) {
 				}
 			}
 			switch c.Kind {
+			case "rethint":
+				cur.RetHints = append(cur.RetHints, c)
 			case "requires":
 				cur.Requires = append(cur.Requires, c)
 			case "ensures":
@@ -421,6 +477,8 @@ func (ss *SpecSet) parseFile(path string, trusted bool, pkgName string) {
 					ls.Steps = append(ls.Steps, c)
 				case "decreases":
 					ls.Decreases = append(ls.Decreases, c)
+				case "hint":
+					ls.Hints = append(ls.Hints, c)
 				}
 			}
 			lastClause = c
